@@ -159,7 +159,12 @@ def evaluate_during_transform(case):
             after = C.inventory(sc.tree, target) if os.path.exists(target) else C.inventory(sc.tree)
             states += 1
             reached.append(["during_transform", case["at"], case["mutation"], case["mode"], op])
-            sb = set(x["sha"] for x in before.values() if x["type"] == "file")
+            # ... and what the command itself had created by then (a temporary file it is still filling: the
+            # stop may fall between its creation and the copy / clone into it) is not the user's data: protected are
+            # the contents the tree had before the command started and what the change itself wrote
+            s0 = set(x["sha"] for x in initial.values() if x["type"] == "file")
+            sb = set(x["sha"] for p, x in before.items() if x["type"] == "file"
+                     and (x["sha"] in s0 or snap["at_pause"].get(p) != x))
             sa = set(x["sha"] for x in after.values() if x["type"] == "file")
             feat = {"mutation": case["mutation"], "phase": "during_the_transform_of_the_file", "op": op,
                     "target_is_retained_member": changed.endswith("f1"), "isolate": False, "report_from_stdout_fallback": False,
@@ -214,7 +219,10 @@ def evaluate_during_dedupe(case):
             rebuild()
             snap = {}
 
+            initial = C.inventory(sc.tree)
+
             def change():
+                snap["at_pause"] = C.inventory(sc.tree)
                 mutate(f_abs, case["mutation"], sc)
                 snap["before"] = C.inventory(sc.tree)
             res = S.run_with_shim(sc, args, [sc.tree, target], "rm", stdin=report, env_extra=env, mode="pause", at=k, on_pause=change)
@@ -225,7 +233,12 @@ def evaluate_during_dedupe(case):
             states += 1
             reached.append(["during_dedupe", case["f"], case["mutation"], case["op"], k])
             # what the command had already removed legitimately before the change is not in `before` any more
-            sb = set(x["sha"] for x in before.values() if x["type"] == "file")
+            # ... and what the command itself had created by then (a temporary file it is still filling: the
+            # stop may fall between its creation and the copy / clone into it) is not the user's data: protected are
+            # the contents the tree had before the command started and what the change itself wrote
+            s0 = set(x["sha"] for x in initial.values() if x["type"] == "file")
+            sb = set(x["sha"] for p, x in before.items() if x["type"] == "file"
+                     and (x["sha"] in s0 or snap["at_pause"].get(p) != x))
             sa = set(x["sha"] for x in after.values() if x["type"] == "file")
             feat = {"mutation": case["mutation"], "phase": "during_the_dedupe_run", "op": case["op"],
                     "target_is_retained_member": case["f"].endswith("k1"), "isolate": False, "report_from_stdout_fallback": False,
